@@ -17,7 +17,7 @@ PROPS = {
     'C11': {'gens': ['c11'], 'translate': ['G:guards'], 'configs': C(['default', 'int64'])},
     'C13': {'gens': ['c13'], 'configs': C(['default', 'int64'])},
     'C12': {'gens': ['c12'], 'translate': ['G:guards'], 'configs': C(['default', 'int64'])},
-    'C01': {'gens': ['c01', 'c01p'], 'translate': ['G:guards', 'P:ecdsa'], 'configs': C(['default', 'int64'])},
+    'C01': {'gens': ['c01', 'c01p', 'c01q'], 'translate': ['G:guards', 'P:ecdsa', 'P:api'], 'configs': C(['default', 'int64'])},
     'C02': {'gens': ['c02', 'c02p'], 'translate': ['G:guards', 'P:schnorr'], 'configs': C(['default', 'int64'])},
     'C03': {'gens': ['c03'], 'translate': ['G:guards'], 'configs': C(['default', 'int64'])},
     'C04': {'gens': ['c04', 'c04p'], 'translate': ['G:guards', 'P:keys'], 'configs': C(['default', 'int64'])},
